@@ -102,6 +102,12 @@ class Ctx:
         d = self.extra.setdefault(name, {})
         d[key] = d.get(key, 0) + n
 
+    def state(self, name, obj):
+        """Counts distinct observed states (by canonical hash) under coverage[name]."""
+        st = self.__dict__.setdefault("_states", {}).setdefault(name, set())
+        st.add(obj if isinstance(obj, str) else case_hash(obj))
+        self.extra[name] = len(st)
+
     def add_to(self, name, value):
         s = self.extra.setdefault(name, [])
         if value not in s:
